@@ -64,7 +64,7 @@ func sceneNewBatch(o ReqOpts) {
 			vf.Assume(ok)
 			chk("C06 C18", req.Provider.Equals(s.Provs[i]), "request-provider")
 			chk("C06 C08 C16", k.IsRequestActive(ctx, rid), "request-active")
-			chk("C08 C11", vf.All(req.ExpirationHeight == s.H+timeout, req.RequestHeight == s.H), "request-expiry-fixed-at-issue")
+			chk("C08 C11 C16", vf.All(req.ExpirationHeight == s.H+timeout, req.RequestHeight == s.H), "request-expiry-fixed-at-issue")
 			chk("C16 C18", vf.And(req.RequestContextBatchCounter == bc+1, string(req.RequestContextId) == string(id)), "request-belongs-to-batch")
 			if pre.SuperMode {
 				chk("C07 C02", req.ServiceFee.Empty(), "super-no-fee")
